@@ -75,7 +75,12 @@ def _full(ref, x):
 
 
 def _free(ref, x):
-    return np.array([float(t) for i, t in enumerate(x) if i not in ref])
+    vals = [t for i, t in enumerate(x) if i not in ref]
+    if vals and all(isinstance(t, int) and not isinstance(t, bool)
+                    for t in vals):
+        # whole numbers stay integers (an integer array is a legal vector)
+        return np.array(vals)
+    return np.array([float(t) for t in vals])
 
 
 class ErrorSubject(Subject):
@@ -880,6 +885,12 @@ def generate(rng, index, tier):
                     if shared_cov is None:
                         shared_cov = op['cov']
                 op['n_samples'] = ni if kind == 'pop' else rng.randint(1, 4)
+                if ek in ('sample', 'indiv', 'sample_df') \
+                        and rng.random() < 0.2:
+                    # whole-number parameters handed over as integers (the
+                    # free vector is an integer array, the fixed values are
+                    # not whole numbers)
+                    op['x'] = [rng.randint(1, 2) for _ in op['x']]
             if faults_on and rng.random() < 0.25:
                 op['fault'] = {'at_run': 0, 'kind': 'fail'}
             ops.append(op)
